@@ -3,16 +3,16 @@ KERNS = ["q120_vec_mat1col_product_baa", "q120_vec_mat1col_product_bbb", "q120_v
          "q120x2_vec_mat1col_product_bbc", "q120x2_vec_mat2cols_product_bbc"]
 OPS = ["q120_b_from_znx64_simple", "q120_c_from_znx64_simple", "q120_c_from_b_simple", "q120_add_bbb_simple",
        "q120_add_ccc_simple", "q120_b_to_znx128_simple", "int64->b->int128", "b(V1)+b(V2)->int128"]
-ELLC = ["ell:0", "ell:1", "ell:2", "ell:10000", "ell:mid", "ell:small", "ell:near-max"]
+ELLC = ["ell:0", "ell:1", "ell:2", "ell:10000", "ell:mid", "ell:small", "ell:near-max", "ell:65..300 and near powers of two"]
 # cases per (kernel, ell class): the long vectors dominate the cost
-ELL_COUNT = {0: 12000, 1: 12000, 2: 18000, 3: 2400, 4: 4500, 5: 30000, 6: 1800}
+ELL_COUNT = {0: 12000, 1: 12000, 2: 18000, 3: 2400, 4: 4500, 5: 30000, 6: 1800, 7: 12000}
 
 
 def _jobs(tier):
     mult = 1 if tier == "quick" else 20
     jobs = []
     for kern in range(5):
-        for ellc in range(7):
+        for ellc in range(8):
             jobs.append(dict(sub="product", count=ELL_COUNT[ellc] * mult, fix=dict(kern=kern, ellc=ellc),
                              split=(2 if ellc in (3, 4, 6) and kern >= 3 else 1)))
     for op in range(8):
